@@ -73,13 +73,13 @@ def lake_lock():
 
 
 def run_extract():
-    """leg 1: regenerate Gen/*.lean; returns (ok, message, item hashes)"""
+    """leg 1: regenerate Gen/*.lean; returns ({generator module: error}, item hashes)"""
     from tools import extract
 
     try:
         return extract.generate(REPO, os.path.join(LEAN, "BaizeVerif", "Gen"))
     except Exception as exc:  # extraction failure breaks the proof leg, it is not infra
-        return False, "extract.py failed: %r\n%s" % (exc, traceback.format_exc()), {}
+        return {"*": "extract.py failed: %r\n%s" % (exc, traceback.format_exc())}, {}
 
 
 def lake_build(targets, timeout=3000):
@@ -238,10 +238,13 @@ def check(prop, tier, seed, replay=None):
     proof_ok = True
     proof_msgs = []
     with lake_lock():
-        ok, msg, gen_items = run_extract()
-        if not ok:
-            proof_ok = False
-            proof_msgs.append(msg)
+        subprocess.run([sys.executable, os.path.join(ROOT, "tools", "mkdriver.py")],
+                       stdout=subprocess.DEVNULL, check=False)
+        gen_errors, gen_items = run_extract()
+        for mod in list(getattr(plugin, "GEN_MODULES", [prop.lower()])) + ["*"]:
+            if mod in gen_errors:
+                proof_ok = False
+                proof_msgs.append("extraction failed (%s): %s" % (mod, gen_errors[mod]))
         build_ok, build_out, build_s = lake_build(list(plugin.LEAN_MODULES) + ["driver"])
         if not build_ok:
             # distinguish: is the driver (models) still buildable?
@@ -427,10 +430,10 @@ def check(prop, tier, seed, replay=None):
 
 def setup():
     with lake_lock():
-        ok, msg, _ = run_extract()
-        if not ok:
-            log(msg)
-            return 2
+        errors, _ = run_extract()
+        if errors:
+            log("extraction errors: %s" % errors)
+        subprocess.run([sys.executable, os.path.join(ROOT, "tools", "mkdriver.py")], check=False)
         ok, out, s = lake_build([])
         log(out[-3000:])
         log("lake build: %s in %.0fs" % ("ok" if ok else "FAILED", s))
